@@ -224,6 +224,9 @@ func (a Float) M__itruediv__(other Object) (Object, error) {
 
 func (a Float) M__floordiv__(other Object) (Object, error) {
 	if b, ok := convertToFloat(other); ok {
+		if b == 0 {
+			return nil, floatDivisionByZero
+		}
 		return Float(math.Floor(float64(a / b))), nil
 	}
 	return NotImplemented, nil
@@ -231,6 +234,9 @@ func (a Float) M__floordiv__(other Object) (Object, error) {
 
 func (a Float) M__rfloordiv__(other Object) (Object, error) {
 	if b, ok := convertToFloat(other); ok {
+		if a == 0 {
+			return nil, floatDivisionByZero
+		}
 		return Float(math.Floor(float64(b / a))), nil
 	}
 	return NotImplemented, nil
